@@ -212,6 +212,12 @@ func c13Open(rsum, dsum []byte) (data []byte, openErr error, readErr error, pani
 
 // c13Judge: the entry (image) must fail to open, or deliver exactly body.
 func c13Judge(image []byte, id int, what string) (ok bool, sig, detail string) {
+	return c13JudgeStrict(image, id, what, false)
+}
+
+// c13JudgeStrict with mustFail: the image is known to differ from what the writer finalised
+// (a corrupted, truncated, extended or foreign file): opening must fail outright.
+func c13JudgeStrict(image []byte, id int, what string, mustFail bool) (ok bool, sig, detail string) {
 	rsum, dsum := c13Sums(id)
 	fs := faultos.Reset()
 	if image != nil {
@@ -224,6 +230,9 @@ func c13Judge(image []byte, id int, what string) (ok bool, sig, detail string) {
 	}
 	if openErr != nil {
 		return true, "", ""
+	}
+	if mustFail {
+		return false, "damaged-entry-opens", what + fmt.Sprintf(": the file differs from the finalised entry but Open succeeds (delivering %d bytes)", len(data))
 	}
 	body := c13Body(id)
 	if readErr != nil {
@@ -312,18 +321,18 @@ func c13Eval(c c13Case) (ok bool, sig, detail string) {
 			return true, "", ""
 		}
 		img[c.Off] ^= byte(c.Mask)
-		return c13Judge(img, c.Body, fmt.Sprintf("body %d, byte %d xor %#02x", c.Body, c.Off, c.Mask))
+		return c13JudgeStrict(img, c.Body, fmt.Sprintf("body %d, byte %d xor %#02x", c.Body, c.Off, c.Mask), true)
 	case "truncate":
 		if c.Len > len(file) {
 			return true, "", ""
 		}
-		return c13Judge(append([]byte(nil), file[:c.Len]...), c.Body, fmt.Sprintf("body %d truncated to %d of %d bytes", c.Body, c.Len, len(file)))
+		return c13JudgeStrict(append([]byte(nil), file[:c.Len]...), c.Body, fmt.Sprintf("body %d truncated to %d of %d bytes", c.Body, c.Len, len(file)), true)
 	case "extend":
 		img := append([]byte(nil), file...)
 		for i := 0; i < c.Len; i++ {
 			img = append(img, byte(c.Mask+i))
 		}
-		return c13Judge(img, c.Body, fmt.Sprintf("body %d extended by %d bytes", c.Body, c.Len))
+		return c13JudgeStrict(img, c.Body, fmt.Sprintf("body %d extended by %d bytes", c.Body, c.Len), true)
 	case "rekey":
 		// the finished entry of body c.Body stored under the name of another key, opened with that key;
 		// Mask 1: same input digest, other argument digest; Mask 2: other input, same arguments
@@ -372,7 +381,7 @@ func c13Eval(c c13Case) (ok bool, sig, detail string) {
 		if len(c.Keep) == 0 {
 			img = []byte{} // created, nothing written
 		}
-		return c13Judge(img, c.Body, fmt.Sprintf("body %d, crash image keeping writes %v of %d (write %d torn to %d bytes)", c.Body, c.Keep, len(log), c.Torn, c.TornN))
+		return c13JudgeStrict(img, c.Body, fmt.Sprintf("body %d, crash image keeping writes %v of %d (write %d torn to %d bytes)", c.Body, c.Keep, len(log), c.Torn, c.TornN), !bytes.Equal(img, file))
 	case "fault":
 		faults := map[int]faultos.Fault{c.Op: {Kind: c.FKind, Short: c.Short}}
 		if c.Op2 > 0 {
